@@ -560,7 +560,7 @@ def frob_resid(J: Z, kraus, scale_note=""):
     return D.maxabs(), len(As)
 
 
-def check_choi_to_kraus(ctx, din, dout, kind, cplx, dim_form="mat", seed=None):
+def check_choi_to_kraus(ctx, din, dout, kind, cplx, dim_form="mat", seed=None, tol=None):
     """choi_to_kraus on an exact integer Choi matrix of a given kind"""
     seed = int(ctx.rng.integers(1 << 62)) if seed is None else int(seed)
     rng = np.random.default_rng(seed)
@@ -582,6 +582,10 @@ def check_choi_to_kraus(ctx, din, dout, kind, cplx, dim_form="mat", seed=None):
         J = gint(rng, (rows, rk), cplx, 3) @ gint(rng, (rk, cols), cplx, 3)
     else:
         J = gint(rng, (rows, cols), cplx, 5)
+    if tol is not None and kind == "herm" and rows == cols and rows > 2:
+        # plant an eigenvalue below the cut-off (in modulus, and away from 0) between larger ones of both signs: shift by the integer nearest to a middle eigenvalue
+        wv = np.linalg.eigvalsh(J)
+        J = J - int(round(float(wv[len(wv) // 2]))) * np.eye(rows)
     if not np.any(J):
         return True
     if not cplx:
@@ -595,8 +599,10 @@ def check_choi_to_kraus(ctx, din, dout, kind, cplx, dim_form="mat", seed=None):
     else:
         dim = None
     desc = {"fn": "choi_to_kraus", "din": list(din), "dout": list(dout), "kind": kind, "complex": cplx, "dim_form": dim_form}
+    if tol is not None:
+        desc["tol"] = tol     # an explicit cut-off above some eigenvalue / singular value of J: those terms are dropped, on BOTH sides of every pair
     nontriv = rows > 1 and cols > 1
-    ctx.case(desc, nontriv, f"choi_to_kraus/{kind}/{'square' if din[0] == din[1] and dout[0] == dout[1] else 'rect'}/{dim_form}")
+    ctx.case(desc, nontriv, f"choi_to_kraus/{kind}/{'square' if din[0] == din[1] and dout[0] == dout[1] else 'rect'}/{dim_form}" + ("" if tol is None else "/tol-given"))
     prng = case_rng("c04/choi_to_kraus", seed)
     pJ = present_nd(prng, J)
     pdim = dim if not isinstance(dim, list) or prng.integers(3) else present_nd(prng, np.array(dim), allow_dtype=False)   # dim is documented as int | list[int] | np.ndarray
@@ -605,7 +611,7 @@ def check_choi_to_kraus(ctx, din, dout, kind, cplx, dim_form="mat", seed=None):
     zJ = Z.of(J)
     guard = Pure(pJ, dim=pdim)
     with LapackTap() as tap:
-        impl = call(choi_to_kraus, pJ, dim=pdim)
+        impl = call(choi_to_kraus, pJ, dim=pdim) if tol is None else call(choi_to_kraus, pJ, tol=tol, dim=pdim)
     if impure(ctx, guard, "choi_to_kraus", info):
         return False
     if impl[0] != "ok":
@@ -620,7 +626,8 @@ def check_choi_to_kraus(ctx, din, dout, kind, cplx, dim_form="mat", seed=None):
     res, n = frob_resid(zJ, kraus)
     ctx.extra["choi_to_kraus_max_rel_residual"] = max(ctx.extra.get("choi_to_kraus_max_rel_residual", 0.0), float(res / scale))
     ok = True
-    if res is None or res > Fraction(1, 10**8) * scale:
+    slack = Fraction(1, 10**8) * scale + (0 if tol is None else Fraction(tol) * max(rows, cols))   # dropped terms are each below tol in norm
+    if res is None or res > slack:
         ok = False
         ctx.violation(f"choi_to_kraus: returned operators do not reproduce the Choi matrix (max residual {float(res) if res is not None else 'shape'}, scale {scale})",
                       dict(info, residual=float(res) if res is not None else None, n_kraus=n))
@@ -630,7 +637,7 @@ def check_choi_to_kraus(ctx, din, dout, kind, cplx, dim_form="mat", seed=None):
         ctx.violation(f"choi_to_kraus: {n} Kraus operators returned for a Choi matrix of rank {rk}", dict(info, n_kraus=n, rank=rk))
     # ---- the post-processing against the Lean mirror model (same LAPACK factors in, same list out)
     dim_js = None if dim is None else (dim if isinstance(dim, int) else np.asarray(dim).tolist())
-    verdict, detail = c2k_model_compare(ctx, info, J, dim_js, tap.calls, kraus)
+    verdict, detail = c2k_model_compare(ctx, info, J, dim_js, tap.calls, kraus) if tol is None else c2k_model_compare(ctx, info, J, dim_js, tap.calls, kraus, tol=tol)
     ctx.count("choi_to_kraus-model/" + verdict)
     minfo = dict(info, theorem="choiToKraus_general_branch / choiToKraus_hermitian_branch / choiToKraus_psd_branch", model_detail=detail)
     if verdict == "model-reject":
@@ -653,7 +660,7 @@ def check_choi_to_kraus(ctx, din, dout, kind, cplx, dim_form="mat", seed=None):
             ctx.violation("choi_to_kraus: apply_channel fails on the returned operators / the Choi matrix", dict(info, X=jmat(X), y1=str(y1)[:200], y2=str(y2)[:200]))
         else:
             sx = max(1.0, float(np.max(np.abs(X)))) * scale * di0 * di1
-            if y1[1].shape != y2[1].shape or float(np.max(np.abs(y1[1] - y2[1]))) > 1e-8 * sx:
+            if y1[1].shape != y2[1].shape or float(np.max(np.abs(y1[1] - y2[1]))) > 1e-8 * sx + (0 if tol is None else tol * max(rows, cols) * sx):
                 ok = False
                 ctx.violation("choi_to_kraus: returned operators act differently from the Choi matrix", dict(info, X=jmat(X)))
     return ok
@@ -908,6 +915,12 @@ def run(ctx, model_ok=True):
     check_apply(ctx, (4, 2), (1, 3), 5, False, True)
     check_choi_to_kraus(ctx, (2, 2), (2, 2), "herm", True)
     check_choi_to_kraus(ctx, (2, 3), (3, 1), "gen", True)
+    # explicit cut-offs that lie above the smallest eigenvalue / singular value of some of these integer matrices (3 - sqrt(10) = -0.16 ...):
+    # the kept terms must be the same on the left and on the right of every pair
+    trng = ctx.rng.spawn(1)[0]
+    for i in range(24 if ctx.tier == "quick" else 200):
+        dd = int(trng.choice([2, 2, 3]))
+        check_choi_to_kraus(ctx, (dd, dd), (2, 2), ["herm", "herm", "psd", "gen"][i % 4], bool(trng.integers(2)), "mat", seed=int(trng.integers(1 << 62)), tol=float(trng.choice([0.5, 1.0, 2.0])))
     check_partial(ctx, (2, 3), (2, 3), 1, (2, 2), 2, "choi", True)
     check_partial(ctx, (2, 3, 2), (3, 2, 2), 2, (1, 2), 2, "choi", True, "two")
     check_partial(ctx, (3, 3), (3, 3), 2, (3, 3), 2, "pairs", True, "none", True)
